@@ -20,6 +20,7 @@ import PgProofs.C05Opts
 import PgProofs.C05Auto
 import PgProofs.C05SpecRT
 import PgProofs.C05Geno
+import PgGen.C05Fn
 namespace Pg.C05
 
 /-! ## T-SIG: value specs can be rebuilt from what `to_json` emits -/
@@ -374,6 +375,31 @@ theorem C05_dnaspec_roundtrip_opts (o : JOpts) (gt : GenoText) (hgt : gt.OK) (g 
     fromJson genoEnv ap (toJsonO o genoEnv (specTree gt g)) = .ok (specTree gt g) := by
   obtain ⟨h1, h2, h3⟩ := spec_good gt hgt g
   exact C05_roundtrip_opts o genoEnv genoEnv_wf ap _ h1 h2 (.inr h3)
+
+/-! ## Functions as leaves: by code or by name -/
+
+/-- For any choice of tests that contains both the `'<lambda>'` name test and the `CO_NESTED` test,
+every function that is written BY NAME — module-level or class-body `def` — can be found again by
+its qualified name; lambdas (at module scope, in a class body, nested) and nested defs go by code. -/
+theorem C05_fn_sound (t : FnTests) (h1 : t.lambdaName = true) (h2 : t.coNested = true) (o : FnOrigin)
+    (h : writtenByCode t o = false) : o.resolvableByName = true := by
+  cases o <;> simp_all [writtenByCode, FnOrigin.isLambda, FnOrigin.isNested, FnOrigin.resolvableByName]
+
+/-- Generated obligation over the tests extracted from the current `_function_to_json`: what it
+writes by name is resolvable by name, for every origin of a plain function. -/
+theorem C05_fn_table : ∀ o ∈ FnOrigin.all, writtenByCode fnTests o = false → o.resolvableByName = true := by
+  decide
+
+theorem C05_fn_origins_complete : ∀ o : FnOrigin, o ∈ FnOrigin.all := by
+  intro o; cases o <;> decide
+
+/-- Without the name test (seeded change C05-8: `CO_NESTED` alone) a lambda at module scope or in a
+class body — e.g. an unchanged `Callable(default=lambda …)` field default — is written as
+`module.<lambda>`, which no lookup can resolve. -/
+theorem C05_fn_counterexample :
+    writtenByCode ⟨false, true⟩ .moduleLambda = false ∧ FnOrigin.moduleLambda.resolvableByName = false ∧
+    writtenByCode ⟨false, true⟩ .classBodyLambda = false ∧ FnOrigin.classBodyLambda.resolvableByName = false := by
+  decide
 
 /-! ## `pg.DNA` (compact JSON form, root metadata) -/
 
